@@ -1310,11 +1310,16 @@ impl<'source> Parser<'source> {
 
         let local_count = function_frame.local_count();
 
+        // The non-locals are collected in a hash set, they get sorted here so that parsing the same
+        // source always results in the same AST (and then in the same compiled code).
+        let mut accessed_non_locals = AstVec::from_iter(function_frame.accessed_non_locals);
+        accessed_non_locals.sort_unstable_by_key(|id| u32::from(*id));
+
         self.push_node_with_start_span(
             Node::Function(Function {
                 args,
                 local_count,
-                accessed_non_locals: AstVec::from_iter(function_frame.accessed_non_locals),
+                accessed_non_locals,
                 body,
                 is_generator: function_frame.contains_yield,
             }),
